@@ -30,14 +30,14 @@ contract(
     stop_at="hash_lists = []",
     exposes={"history": "MHLHistory"},
     raises={
-        "NoMHLChainException": f"fs_exists({ASC}) and not fs_exists(p_join({ASC}, 'ascmhl_chain.xml'))",
+        "NoMHLChainException": f"fs_isdir({ASC}) and not fs_exists(p_join({ASC}, 'ascmhl_chain.xml'))",
         "ModifiedMHLManifestFileException": "True",
         "MissingMHLManifestException": "True",
     },
     ensures=[
         # the region (everything up to the chain check) completes normally only if the chain file is there when the
         # folder is, and every chained manifest exists and hashes to the recorded digest
-        f"not fs_exists({ASC}) or fs_exists(p_join({ASC}, 'ascmhl_chain.xml'))",
+        f"not fs_isdir({ASC}) or fs_exists(p_join({ASC}, 'ascmhl_chain.xml'))",
         "_x_history.chain is not None",
         f"all(fs_exists({MF('g')}) and is_digest_text(g.hash_string, g.hash_format, file_bytes({MF('g')})) for g in _x_history.chain.generations)",
     ],
